@@ -426,3 +426,21 @@ func ruleValidateSchema(c *Ctx, r *Repo, rule string) {
 	}
 
 }
+
+// schemaProperties reads the property names of a built-in template's schema.
+func schemaProperties(c *Ctx, name string) map[string]bool {
+	out := map[string]bool{}
+	b, err := os.ReadFile(filepath.Join(c.Repo, "internal", "mock_"+name+".templ.schema.json"))
+	if err != nil {
+		return out
+	}
+	var s struct {
+		Properties map[string]json.RawMessage `json:"properties"`
+	}
+	if json.Unmarshal(b, &s) == nil {
+		for k := range s.Properties {
+			out[k] = true
+		}
+	}
+	return out
+}
